@@ -205,7 +205,9 @@ def c06_evidence_extra(agg: dict) -> dict:
         "representation_invariants_checked": st.get("rep_invariants", 0),
         "law_probes_where_both_sides_raised": st.get("both_raised", 0),
         "max_projective_defect_seen": st.get("max_projective_defect", 0.0),
-        "tolerance": "1 - cos^2 <= 1e-12 (projective angle <= 1e-6); generated chains keep cond <= 1e4, entries <= 1e6",
+        "max_affine_chart_defect_over_its_tolerance_seen": st.get("max_affine_defect", 0.0),
+        "tolerance": "1 - cos^2 <= 1e-12 (projective angle <= 1e-6), generated chains keep cond <= 1e4, entries <= 1e6; "
+                     "point-like objects additionally: affine coordinates within 100*eps*cond^2*|x|/|x_n| (far objects meet cond <= 100 only)",
         "faults_fired": {"note": "none injected: asynchronous exceptions, eviction and pre-emption interact with the "
                                  "group laws only through purity, which is C12's subject (DESIGN.md section 6)"},
         "configurations": agg["configs"],
